@@ -54,6 +54,9 @@ pub fn amount(v: &Value) -> (usize, i64, &'static str) {
 pub fn hint_of(v: Option<&Value>) -> Option<(usize, Option<usize>)> {
     let v = v?;
     let a = v.as_array()?;
+    if a.len() < 2 {
+        return None; // exact: the plain vector iterator's own size_hint
+    }
     let lo = a[0].as_u64().unwrap_or(0) as usize;
     let hi = match a[1].as_i64().unwrap_or(-1) {
         -1 => None,
